@@ -6,9 +6,9 @@ written from the docstrings / doc/bitarray.rst / behaviour pinned by the unedite
 model state, which outcomes are acceptable:
 
     ok      list of (new content, return value) the call may succeed with        (empty: the call must raise)
-    rz      exception classes the call may raise (None: it must not raise); after a raise the content must be
-            `rstate` (the old content, or - set/invert with an iterable - the old content with exactly the valid
-            positions that preceded the bad one / the producer fault applied)
+    rz      exception classes the call may raise (None: it must not raise); after a raise the content must be one
+            of `rstate` (the old content; for set/invert with an iterable also the old content with exactly the
+            valid positions that preceded the bad one / the producer fault applied)
     frame   (a, b, length_may_change): checked on the real pre/post state directly, independent of M
 
 Faults: rejected calls, FaultyIterable producers (positions, byte sizes, bool operands), cache clears, and the
@@ -51,9 +51,9 @@ ALL_OPS = tuple(sorted(OP_NAMES))
 SHRINKERS = ('delslice', 'delslice', 'clear', 'setslice', 'replace')
 
 # Trigger tags of the defects the unchanged tree is known to have (DESIGN 4/C03 "Seen today" plus what this engine
-# found).  Avoidance runs never emit an event carrying one of these tags.
+# found).  Avoidance runs never emit an event carrying one of these tags.  ('norepeat-past-end', the byteswap
+# (repeat=False) pattern running past `end`, keeps its own tag but is no longer avoided: /repo commit a15c797 fixed it.)
 AVOID_TAGS = frozenset({
-    'norepeat-past-end',             # byteswap(fmt, start, end, repeat=False) with start + pattern > end
     'fmt-iterator',                  # byteswap(one-shot iterator)
     'empty-range',                   # rol/ror(n, k, k)
     'self-operand,pos!=0',           # s.overwrite(s, pos != 0)
@@ -186,7 +186,7 @@ class EMut(Engine):
 
     # ---------------------------------------------------------------------------------------------------
     def plan(self, tier, base_seed):
-        return self.seeded_plan(tier, base_seed, quick=(110000, 30), thorough=(1500000, 60))
+        return self.seeded_plan(tier, base_seed, quick=(100000, 30), thorough=(1300000, 60))
 
     def config(self, g, desc):
         nops = g.int(5, len(ALL_OPS))
@@ -395,7 +395,11 @@ class EMut(Engine):
             if len(newM) > INTERNAL_LIMIT:
                 return Exp(skip='result too long')
         if e.rstate is None:
-            e.rstate = self.M
+            e.rstate = (self.M,)
+        elif isinstance(e.rstate, str):
+            # set/invert over an iterable: the statement says the valid positions before the bad one MAY already have
+            # been applied - so "exactly that prefix applied" and "nothing applied" are both in order after the raise
+            e.rstate = (e.rstate,) if e.rstate == self.M else (e.rstate, self.M)
         if e.tag is None:
             e.tag = 'producer-fault' if e.fault else 'rejected' if not e.ok else '-'
         return e
@@ -503,7 +507,7 @@ class EMut(Engine):
         n = len(M)
         i, v = ev.get('i'), ev.get('v')
         if i is None:
-            return self._raise(ANY + ((self._gate(v)[0] or ()) if _intval(v) is None else ()), tag='index=None')
+            return Exp(skip='None is not a documented key type')
         if not _isint(i):
             return self._raise(ANY)
         p = i + n if i < 0 else i
@@ -1042,7 +1046,17 @@ class EMut(Engine):
         disc = None
         detail = {}
         newM = None
-        if st == 'exc':
+        if st == 'exc' and isinstance(val, InjectedProducerFault) and fired and not e.fault and e.rz is not None:
+            # The model expected the call to be rejected because of an item that precedes the point where the producer
+            # dies; the library may equally consume the whole producer before looking at any item.  The injected fault
+            # propagating is then the clean outcome - provided nothing changed.
+            cls = type(val).__name__
+            if post not in e.rstate:
+                disc = 'not-atomic'
+            else:
+                newM = post
+            obs_ret = None
+        elif st == 'exc':
             cls = type(val).__name__
             if e.rz is None:
                 disc = 'raised:' + cls
@@ -1050,10 +1064,10 @@ class EMut(Engine):
                 disc = ('wrong-exception:' if _exc_matches(val, ANY) else 'raised:') + cls
             elif isinstance(val, InjectedProducerFault) and not fired:
                 disc = 'raised:' + cls
-            elif post != e.rstate:
+            elif post not in e.rstate:
                 disc = 'not-atomic'
             if disc is None:
-                newM = e.rstate
+                newM = post
             obs_ret = None
         else:
             ret = SELF if (val is s and val is not None) else NONE if val is None else val if _isint(val) else 'other'
@@ -1069,7 +1083,7 @@ class EMut(Engine):
                     disc = self._classify_ok(e, pre, post, ret)
         # the model moves to the specified state; the real object follows it if it went elsewhere
         if newM is None:
-            newM = e.ok[0][0] if e.ok else e.rstate
+            newM = e.ok[0][0] if e.ok else e.rstate[0]
         incs = []
         if disc is not None:
             detail = {'cls': self.cname, 'call': self._src(ev), 'before': pre, 'after': post,
@@ -1105,7 +1119,7 @@ class EMut(Engine):
         for cand, ret in e.ok[:2]:
             out.append(f'content {cand} returning {ret}')
         if e.rz is not None:
-            out.append('raise one of ' + '/'.join(sorted(set(e.rz))) + ' leaving ' + str(e.rstate))
+            out.append('raise one of ' + '/'.join(sorted(set(e.rz))) + ' leaving ' + ' or '.join(e.rstate))
         return ' OR '.join(out)
 
     def _reach(self, ev, e, st, val, fired, pre, newM, disc):
@@ -1246,7 +1260,8 @@ class EMut(Engine):
         lines = ['import sys; sys.path.insert(0, "/repo")', 'import bitstring; from bitstring import *']
         body = []
         for ev in events[1:]:
-            body.append(self._src(ev))
+            if ev.get('k') in ('op', 'reject', 'pfault', 'option', 'cache_clear'):
+                body.append(self._src(ev))
         if any('F(' in b for b in body):
             lines += ['class F:  # a producer that dies at element k',
                       '    def __init__(self, items, k): self.items, self.k = items, k',
@@ -1292,7 +1307,8 @@ class EMut(Engine):
                 if e.skip.startswith('malformed'):
                     raise AssertionError(f'HARNESS: generator produced a malformed event {ev}: {e.skip}')
                 continue
-            if cfg['avoid'] and e.tag in AVOID_TAGS:
+            if e.tag in AVOID_TAGS and (cfg['avoid'] or g.chance(0.7)):
+                # never in an avoidance run; thinned elsewhere so that known trigger patterns do not crowd out the rest
                 continue
             if e.ok and max(len(c) for c, _ in e.ok) > 4 * cfg['maxlen'] + 64:
                 continue
@@ -1417,8 +1433,7 @@ class EMut(Engine):
 
     def _g_setitem(self, g, n):
         i = self._index(g, n)
-        if g.chance(0.01):
-            i = None
+        # (None is not a documented key type - Union[slice, int] - and is not generated; a replayed None is skipped)
         if g.chance(0.45):
             v = {'int': g.pick([0, 1, 1, 0, -1, 2, -2, True, False])}
             if isinstance(v['int'], bool):
@@ -1571,6 +1586,9 @@ class EMut(Engine):
                 c['ba0'] = False
                 out.append({'k': 'init', 'cfg': c})
             return out
+        if ev.get('k') == 'nop':
+            return out
+        out.append({'k': 'nop'})          # the event is not needed at all (apply skips unknown kinds)
         for key in sorted(ev):
             if key in ('k', 'op'):
                 continue
